@@ -90,6 +90,13 @@ Example named_values :
   let v := Ok [VPtr (VList [VFloat 1536; VFloat (-2048)]); VPtr (VFloat 256); VPtr (VBool false)] in [v; v].
 Proof. vm_compute. reflexivity. Qed.
 
+(* math.MaxFloat32 is in range; MaxFloat32 + 2^100 (a float64 that would round
+   to it) is not: the std source tests the range before narrowing *)
+Example named_float32_boundary :
+  map (fun t => class_of (flag_value PStd 0 0 named_fs named_tmpl [(S "ratio", S t)]))
+      ["340282346638528859811704183484516925440"; "340282347906179460039933584981220130816"] = [COk; CErr].
+Proof. vm_compute. reflexivity. Qed.
+
 Example named_float32_overflow :
   map (fun p => class_of (flag_value p 0 0 named_fs named_tmpl [(S "ratio", S "1e39")])) [PStd; PPflag] = [CErr; CErr].
 Proof. vm_compute. reflexivity. Qed.
